@@ -35,9 +35,14 @@ def plan(ctx: Ctx) -> list:
     """[(part, specs, schedule bound, deviation kinds, errkinds, seconds)]"""
     q = ctx.quick
     P = []
-    combos = [(tp, n) for tp in ('a2', 'a3', 'd2', 'd11')
-              for n in ('single', 'map3nested')]
-    combos += [(tp, 'two-clients') for tp in ('d2', 'd11')]
+    if q:
+        combos = [('a2', 'single'), ('a2', 'map3nested'), ('a3', 'single'),
+                  ('d2', 'map3nested'), ('d11', 'single'),
+                  ('d11', 'map3nested'), ('d11', 'two-clients')]
+    else:
+        combos = [(tp, n) for tp in ('a2', 'a3', 'd2', 'd11')
+                  for n in ('single', 'map3nested')]
+        combos += [(tp, 'two-clients') for tp in ('d2', 'd11')]
     if not q:
         combos += [(tp, 'submit-result') for tp in ('a2', 'd11')]
         combos += [('d21', 'map3nested'), ('d22', 'map3nested')]
